@@ -1,7 +1,8 @@
 import GlmVerif.Spec.C02
-import GlmVerif.Gen.C02
-/-! table check of family `addsm` against the model generated from /repo (kernel evaluation) -/
+import GlmVerif.Gen.C02.addsm
+/-! table check of family `addsm` against the model of its units generated from /repo (kernel evaluation) -/
 namespace Glm.Props.C02
 open Glm Glm.Spec.C02 Glm.Gen.C02
-theorem addsm_ok : f_addsm.ok lookup = true := by decide +kernel
+set_option maxHeartbeats 4000000 in
+theorem addsm_ok : f_addsm.ok (fun _ ks => addsm_L ks) = true := by decide +kernel
 end Glm.Props.C02
